@@ -77,7 +77,7 @@ def run(tier, seed):
     cases = []
     g2 = model(w, 2, ["Emit"], "gen2", view=False)
     cases += g2.replays if tier == "thorough" else g2.replays[seed % 6::6]
-    sim = model(w, 6 if tier == "quick" else 12, ["Emit"], "sim", simulate=150 if tier == "quick" else 3000,
+    sim = model(w, 6 if tier == "quick" else 12, ["Emit"], "sim", simulate=150 if tier == "quick" else 1500,
                 depth=8 if tier == "quick" else 14, seed=seed, view=False)
     seen = set()
     for b in sim.replays:
